@@ -722,4 +722,288 @@ theorem verifyFutureCommit_ok_iff_aux {old new : ValSet} (ho : Valid old) (hn : 
     rw [gt_twoThirds_iff hT0 ho.total]; omega
 
 
+
+
+/-! ### which error -/
+
+theorem validateLoop_err {h r : Int} {es : List (Option Entry)} {e : Err}
+    (he : validateLoop h r es = .error e) : e = .vType ∨ e = .vHeight ∨ e = .vRound := by
+  induction es with
+  | nil => simp [validateLoop] at he
+  | cons x xs ih =>
+    cases x with
+    | none => exact ih (by simpa [validateLoop] using he)
+    | some y =>
+      unfold validateLoop at he
+      split at he
+      · cases he; simp
+      · split at he
+        · cases he; simp
+        · split at he
+          · cases he; simp
+          · exact ih he
+
+theorem validateBasic_err {c : Commit} {e : Err} (he : validateBasic c = .error e) :
+    e = .nilBlock ∨ e = .noPrecommits ∨ e = .vType ∨ e = .vHeight ∨ e = .vRound := by
+  unfold validateBasic at he
+  split at he
+  · cases he
+  · split at he
+    · cases he; simp
+    · split at he
+      · cases he; simp
+      · rcases validateLoop_err he with h | h | h <;> simp [h]
+
+theorem tallyLoop_err {B : Nat} {vals : List Validator} {es : List (Option Entry)} {t : Int} {e : Err}
+    (hlen : es.length = vals.length) (he : tallyLoop B vals es t = .error e) : e = .sig := by
+  induction vals generalizing es t with
+  | nil =>
+    cases es with
+    | nil => simp [tallyLoop] at he
+    | cons a as => simp at hlen
+  | cons v vs ih =>
+    cases es with
+    | nil => simp at hlen
+    | cons oe es =>
+      have hlen' : es.length = vs.length := by simpa using hlen
+      cases oe with
+      | none => exact ih hlen' (by simpa [tallyLoop] using he)
+      | some y =>
+        unfold tallyLoop at he
+        split at he
+        · cases he; rfl
+        · exact ih hlen' he
+
+theorem tallyLoop_bad_sig {B : Nat} {vals : List Validator} {es : List (Option Entry)} {t : Int}
+    (hlen : es.length = vals.length) (hbad : ∃ e, some e ∈ es ∧ e.sigOK = false) :
+    tallyLoop B vals es t = .error .sig := by
+  induction vals generalizing es t with
+  | nil =>
+    cases es with
+    | nil => simp at hbad
+    | cons a as => simp at hlen
+  | cons v vs ih =>
+    cases es with
+    | nil => simp at hlen
+    | cons oe es =>
+      have hlen' : es.length = vs.length := by simpa using hlen
+      obtain ⟨e, hmem, hs⟩ := hbad
+      cases oe with
+      | none =>
+        simp only [tallyLoop]
+        exact ih hlen' ⟨e, by simpa using hmem, hs⟩
+      | some y =>
+        unfold tallyLoop
+        by_cases hy : y.sigOK = true
+        · simp only [hy, Bool.not_true, Bool.false_eq_true, if_false]
+          rcases List.mem_cons.1 hmem with h | h
+          · cases h; rw [hs] at hy; cases hy
+          · exact ih hlen' ⟨e, h, hs⟩
+        · simp [hy]
+
+theorem futureLoop_err {old : ValSet} {B : Nat} {H r : Int} {es : List (Option Entry)}
+    (hshape : ∀ e, some e ∈ es → e.height = H ∧ e.round = r ∧ e.type = precommitType)
+    {seen : List Nat} {p : Int} {e : Err}
+    (he : futureLoop old B H r es seen p = .error e) : e = .fSig := by
+  induction es generalizing seen p with
+  | nil => simp [futureLoop] at he
+  | cons oe es ih =>
+    have hshape' : ∀ e, some e ∈ es → e.height = H ∧ e.round = r ∧ e.type = precommitType :=
+      fun e he => hshape e (by simp [he])
+    cases oe with
+    | none => exact ih hshape' (by simpa [futureLoop] using he)
+    | some y =>
+      obtain ⟨h1, h2, h3⟩ := hshape y (by simp)
+      unfold futureLoop at he
+      simp only [h1, h2, h3, ne_eq, not_true_eq_false, if_false] at he
+      split at he
+      · exact ih hshape' he
+      · split at he
+        · exact ih hshape' he
+        · split at he
+          · cases he; rfl
+          · exact ih hshape' he
+
+
+
+
+theorem hasBadSig_iff (es : List (Option Entry)) :
+    hasBadSig es = true ↔ ∃ e, some e ∈ es ∧ e.sigOK = false := by
+  unfold hasBadSig
+  rw [List.any_eq_true]
+  constructor
+  · rintro ⟨oe, hm, h⟩
+    cases oe with
+    | none => simp at h
+    | some e => exact ⟨e, hm, by simpa using h⟩
+  · rintro ⟨e, hm, h⟩
+    exact ⟨some e, hm, by simp [h]⟩
+
+theorem verifyCommit_eq_spec_aux {vals : ValSet} (hv : Valid vals) (B : Nat) (H : Int) (c : Commit) :
+    verifyCommit vals B H c = verifyCommitSpec vals B H c := by
+  have hT := totalVotingPower_ok hv
+  have hT0 := sumPowers_nonneg hv.pos
+  have hmax : sumPowers vals ≤ maxInt64 := by
+    have := hv.total; rw [maxTotal_eq] at this; unfold maxInt64; omega
+  unfold verifyCommit verifyCommitSpec
+  cases hvb : validateBasic c with
+  | error e => rfl
+  | ok u =>
+    simp only
+    by_cases h1 : vals.length = c.precommits.length
+    · by_cases h2 : H = c.height
+      · by_cases h3 : B = c.blockID
+        · subst h2 h3
+          simp only [h1, ne_eq, not_true_eq_false, if_false]
+          have hkind : ∀ e, some e ∈ c.precommits → e.type = precommitType ∧ e.height = c.height := by
+            rcases (validateBasic_ok_iff c).1 hvb with ⟨_, hnil⟩ | ⟨_, _, hall⟩
+            · intro e he; rw [hnil] at he; simp at he
+            · intro e he; exact ⟨(hall e he).1, (hall e he).2.1⟩
+          by_cases hbad : hasBadSig c.precommits = true
+          · rw [tallyLoop_bad_sig h1.symm ((hasBadSig_iff _).1 hbad)]
+            simp [hbad]
+          · have hall : ∀ e, some e ∈ c.precommits → e.sigOK = true := by
+              intro e he
+              cases hs : e.sigOK with
+              | true => rfl
+              | false => exact absurd ((hasBadSig_iff _).2 ⟨e, he, hs⟩) hbad
+            have htl := (tallyLoop_ok_iff c.blockID c.height vals c.precommits 0 _ h1.symm hv.pos (by omega) (by omega)
+              hkind).2 ⟨hall, rfl⟩
+            rw [htl, hT]
+            simp only [hbad, Bool.false_eq_true, if_false]
+            have := gt_twoThirds_iff (tallied := 0 + zipTally c.blockID c.height vals c.precommits) hT0 hv.total
+            rw [signedPower_eq]
+            by_cases hg : 0 + zipTally c.blockID c.height vals c.precommits > twoThirds (sumPowers vals)
+            · rw [if_pos hg, if_pos (by have := this.1 hg; omega)]
+            · rw [if_neg hg, if_neg (by intro h; exact hg (this.2 (by omega)))]
+        · have h3' : ¬ c.blockID = B := fun h => h3 h.symm
+          simp [h1, h2, h3, h3']
+      · have h2' : ¬ c.height = H := fun h => h2 h.symm
+        simp [h1, h2, h2']
+    · have h1' : ¬ c.precommits.length = vals.length := fun h => h1 h.symm
+      simp [h1, h1']
+
+
+
+
+theorem hasBadOldSig_iff (old : ValSet) (c : Commit) :
+    hasBadOldSig old c.precommits = true ↔ ¬ OldWellFormed old c := by
+  unfold hasBadOldSig OldWellFormed
+  rw [List.any_eq_true]
+  constructor
+  · rintro ⟨v, hv, h⟩ hwf
+    cases hf : firstNaming v.addr c.precommits with
+    | none => simp [hf] at h
+    | some e =>
+      simp only [hf] at h
+      have := hwf v hv e hf
+      simp [this] at h
+  · intro h
+    apply Classical.byContradiction
+    intro hne
+    apply h
+    intro v hv e hf
+    cases hs : e.sigOKOld with
+    | true => rfl
+    | false => exact absurd ⟨v, hv, by simp [hf, hs]⟩ hne
+
+theorem verifyFutureCommit_eq_spec_aux {old new : ValSet} (ho : Valid old) (hn : Valid new)
+    (B : Nat) (H : Int) (c : Commit) :
+    verifyFutureCommit old new B H c = verifyFutureCommitSpec old new B H c := by
+  have hT := totalVotingPower_ok ho
+  have hT0 := sumPowers_nonneg ho.pos
+  have hmax : sumPowers old ≤ maxInt64 := by
+    have := ho.total; rw [maxTotal_eq] at this; unfold maxInt64; omega
+  unfold verifyFutureCommit verifyFutureCommitSpec
+  rw [← verifyCommit_eq_spec_aux hn]
+  cases hvc : verifyCommit new B H c with
+  | error e => rfl
+  | ok u =>
+    cases u
+    obtain ⟨wf, _⟩ := (verifyCommit_ok_iff_aux hn B H c).1 hvc
+    have hshape : ∀ e, some e ∈ c.precommits → e.height = H ∧ e.round = c.round ∧ e.type = precommitType := by
+      intro e he
+      obtain ⟨e0, he0⟩ := firstNonNil_some_of_mem he
+      have hR : c.round = e0.round := by unfold Commit.round; rw [he0]
+      exact ⟨(wf.kind e he).2, by rw [hR]; exact wf.oneRound e e0 he (firstNonNil_mem he0), (wf.kind e he).1⟩
+    have hloop := fun x => futureLoop_ok_iff ho B H c.round c.precommits hshape [] [] 0 x
+      (by intro i v _; simp) (by omega) (by rw [unseenPower_nil]; omega)
+    simp only [namesOK_nil_seen, tallyFrom_nil_seen] at hloop
+    simp only
+    by_cases hbad : hasBadOldSig old c.precommits = true
+    · have hnwf := (hasBadOldSig_iff old c).1 hbad
+      cases hl : futureLoop old B H c.round c.precommits [] 0 with
+      | ok x => exact absurd ((hloop x).1 hl).1 hnwf
+      | error e =>
+        rw [futureLoop_err hshape hl]
+        simp [hbad]
+    · have hwf : OldWellFormed old c := by
+        apply Classical.byContradiction
+        intro h; exact hbad ((hasBadOldSig_iff old c).2 h)
+      rw [(hloop _).2 ⟨hwf, rfl⟩, hT]
+      simp only [hbad, Bool.false_eq_true, if_false]
+      have := gt_twoThirds_iff (tallied := 0 + oldSignedPower old B H c) hT0 ho.total
+      by_cases hg : 0 + oldSignedPower old B H c ≤ twoThirds (sumPowers old)
+      · rw [if_pos hg, if_neg (by intro h; have := this.2 (by omega); omega)]
+      · rw [if_neg hg, if_pos (by have := this.1 (by omega); omega)]
+
+
+
+
+theorem firstNaming_iff_of_distinct_aux (a : Nat) (es : List (Option Entry))
+    (hd : (es.filterMap id).Pairwise (fun e e' => e.valAddr ≠ e'.valAddr)) (e : Entry) :
+    firstNaming a es = some e ↔ some e ∈ es ∧ e.valAddr = a := by
+  induction es with
+  | nil => simp [firstNaming]
+  | cons oe es ih =>
+    cases oe with
+    | none =>
+      have : firstNaming a (none :: es) = firstNaming a es := rfl
+      rw [this, ih (by simpa using hd)]
+      simp
+    | some y =>
+      simp only [List.filterMap_cons_some (show id (some y) = some y from rfl), List.pairwise_cons] at hd
+      by_cases hy : y.valAddr = a
+      · rw [firstNaming_cons_eq hy]
+        constructor
+        · intro h; cases h; exact ⟨by simp, hy⟩
+        · rintro ⟨hm, ha⟩
+          rcases List.mem_cons.1 hm with h | h
+          · cases h; rfl
+          · have : e ∈ es.filterMap id := by simp [List.mem_filterMap, h]
+            exact absurd (hy.trans ha.symm) (hd.1 e this)
+      · rw [firstNaming_cons_ne hy, ih hd.2]
+        constructor
+        · rintro ⟨hm, ha⟩; exact ⟨by simp [hm], ha⟩
+        · rintro ⟨hm, ha⟩
+          rcases List.mem_cons.1 hm with h | h
+          · cases h; exact absurd ha hy
+          · exact ⟨h, ha⟩
+
+theorem spec_not_internal {vals : ValSet} {B : Nat} {H : Int} {c : Commit} {e : Err}
+    (h : verifyCommitSpec vals B H c = .error e) :
+    e ∈ [Err.nilBlock, .noPrecommits, .vType, .vHeight, .vRound, .size, .height, .blockID, .sig, .power] := by
+  unfold verifyCommitSpec at h
+  split at h
+  · rename_i e' hvb
+    cases h
+    rcases validateBasic_err hvb with h | h | h | h | h <;> simp [h]
+  · repeat' split at h
+    all_goals first | (cases h; simp) | cases h
+
+theorem fspec_not_internal {old new : ValSet} {B : Nat} {H : Int} {c : Commit} {e : Err}
+    (h : verifyFutureCommitSpec old new B H c = .error e) :
+    e ∈ [Err.nilBlock, .noPrecommits, .vType, .vHeight, .vRound, .size, .height, .blockID, .sig, .power,
+         .fSig, .fPower] := by
+  unfold verifyFutureCommitSpec at h
+  split at h
+  · rename_i e' hvc
+    cases h
+    have := spec_not_internal hvc
+    simp only [List.mem_cons, List.not_mem_nil, or_false] at this ⊢
+    rcases this with h | h | h | h | h | h | h | h | h | h <;> simp [h]
+  · repeat' split at h
+    all_goals first | (cases h; simp) | cases h
+
+
 end GnoVerif.C36
